@@ -1,4 +1,73 @@
 //! Kani proof harnesses compiled as a child module of vrp-pragmatic/src/validation/vehicles.rs (cfg(kani) only).
+//!
+//! C10: break (E1303) and reload (E1304) time windows follow the E1103 rule and must additionally intersect the shift.
+use super::*;
+
+fn any_tw() -> TimeWindow {
+    let (s, e): (i16, i16) = (kani::any(), kani::any());
+    TimeWindow::new(s as f64, e as f64)
+}
+
+fn valid(tw: &TimeWindow) -> bool {
+    tw.start <= tw.end
+}
+
+fn meets(a: &TimeWindow, b: &TimeWindow) -> bool {
+    a.start <= b.end && b.start <= a.end
+}
+
+fn shift_rule<const N: usize>() {
+    let all = [any_tw(), any_tw(), any_tw()];
+    let mut tws: Vec<Option<TimeWindow>> = Vec::new();
+    let mut idx = 0;
+    while idx < N {
+        tws.push(Some(all[idx].clone()));
+        idx += 1;
+    }
+    let has_shift: bool = kani::any();
+    let shift = any_tw();
+    let skip: bool = kani::any();
+
+    let accepted = check_shift_time_windows(if has_shift { Some(shift.clone()) } else { None }, tws, skip);
+
+    let mut expected = true;
+    let mut i = 0;
+    while i < N {
+        expected &= valid(&all[i]);
+        expected &= !has_shift || meets(&all[i], &shift);
+        let mut j = i + 1;
+        while j < N {
+            expected &= skip || !meets(&all[i], &all[j]);
+            j += 1;
+        }
+        i += 1;
+    }
+    kani::cover!(accepted && has_shift, "accepted-within-shift");
+    kani::cover!(N == 0 || !accepted, "rejected");
+    assert!(accepted == expected);
+}
+
+// @verif props=C10 tier=quick ob=shift_tw_rule fn=check_shift_time_windows,check_time_windows bounds="0 or 1 break/reload windows, optional shift window, bounds any i16 as f64"
+#[kani::proof]
+#[kani::unwind(5)]
+fn c10_shift_time_windows_n0_n1() {
+    shift_rule::<0>();
+    shift_rule::<1>();
+}
+
+// @verif props=C10 tier=quick ob=shift_tw_rule fn=check_shift_time_windows,check_time_windows bounds="2 break/reload windows, optional shift window, bounds any i16 as f64"
+#[kani::proof]
+#[kani::unwind(6)]
+fn c10_shift_time_windows_n2() {
+    shift_rule::<2>();
+}
+
+// @verif props=C10 tier=thorough ob=shift_tw_rule fn=check_shift_time_windows,check_time_windows bounds="3 break/reload windows, optional shift window, bounds any i16 as f64"
+#[kani::proof]
+#[kani::unwind(7)]
+fn c10_shift_time_windows_n3() {
+    shift_rule::<3>();
+}
 
 // Concrete-playback replays (`cargo kani playback`) are compiled from here; the file is written by /verif/check.
 #[cfg(all(kani, test))]
